@@ -135,8 +135,13 @@ def gen_spec(rng, s, valid_only=False):
         return rng.randint(-4, -2)
     if r < 0.86:
         return rand_partition(rng, max(s, 0))
-    if r < 0.92:
+    if r < 0.89:
         return tuple(rng.randint(-2, 5) for _ in range(rng.randint(0, 3)))
+    if r < 0.92:  # sums to the dimension but contains a negative (or zero) entry
+        k = rng.randint(0, 3)
+        t = list(rand_partition(rng, max(s, 0) + k)) + [-k]
+        rng.shuffle(t)
+        return tuple(t)
     if r < 0.95:
         return ()
     if r < 0.98:
@@ -360,6 +365,14 @@ class C18(Property):
                 v = r[1]
                 if len(v) != len(shape) or any(sum(cc) != s for cc, s in zip(v, shape)):
                     ctx.violation("validated-chunks-do-not-sum-to-shape", c, {"observed": ll(v), "shape": list(shape)})
+                if any(x < 0 for cc in v for x in cc):
+                    ctx.violation("validated-chunks-contain-negative-size", c, {"observed": ll(v)})
+                elif len(v) == len(shape):  # the ranges of whatever was validated tile the array exactly once
+                    hits = np.zeros(tuple(sum(cc) for cc in v), dtype=int)
+                    for _, sl in iterate_chunk_ranges(v):
+                        hits[sl] += 1
+                    if hits.size and not (hits == 1).all():
+                        ctx.violation("validated-chunk-ranges-not-exact-cover", c, {"observed": ll(v)})
                 if well_formed and any(x < 1 for cc in v for x in cc):
                     ctx.violation("validated-chunks-not-positive", c, {"observed": ll(v)})
                 if well_formed and guarded(validate_chunks, shape, v)[1:] != (v,):
